@@ -19,7 +19,7 @@ ASSUMPTIONS = ['dict keys are strings', 'pandas extension arrays, timezone-aware
 
 
 def required(tier):
-    return {'eq_total_boolean': 20000, 'eq_symmetric': 10000, 'eq_clone_reflexive': 150, 'eq_transitive_triples': 1000000, 'eq_kind_strict': 5000, 'eq_reference_model': 10000, 'eq_agrees_with_==': 300, 'in_consistent': 100}
+    return {'eq_total_boolean': 20000, 'eq_symmetric': 10000, 'eq_clone_reflexive': 150, 'eq_transitive_triples': 1000000, 'eq_kind_strict': 5000, 'eq_reference_model': 10000, 'eq_operands_unchanged': 100, 'eq_agrees_with_==': 300, 'in_consistent': 100}
 
 
 def T(*xs):
@@ -49,7 +49,7 @@ def universe():
          {'$ts': [IDX, [1.0, 2.0, 3.0]]}, {'$ts': [IDX, [1.0, 2.0, nan(15)]]}, {'$ts': [IDX[:2], [1.0, 2.0]]}, {'$ts': [IDX[1:], [1.0, 2.0]]}, {'$ts': [IDX, [1.0, 1.0, 1.0]]}, {'$ts': [[], []]},
          {'$sr': [[0, 1], [1, 1]]}, {'$sr': [[0, 1], [1.0, 2.0]]}, {'$sr': [['x', 'y'], [1.0, 2.0]]}, {'$sr': [[0, 1, 2], [1.0, 2.0, 3.0]]},
          {'$df': [IDX, ['a', 'b'], [[1.0, 2.0], [3.0, 4.0], [5.0, 6.0]]]}, {'$df': [IDX, ['a', 'c'], [[1.0, 2.0], [3.0, 4.0], [5.0, 6.0]]]}, {'$df': [IDX, ['b', 'a'], [[2.0, 1.0], [4.0, 3.0], [6.0, 5.0]]]},
-         {'$df': [IDX, ['a', 'b'], [[1.0, 2.0], [3.0, nan(16)], [5.0, 6.0]]]}, {'$df': [IDX[:2], ['a', 'b'], [[1.0, 2.0], [3.0, 4.0]]]}, {'$df': [IDX, ['a'], [[1.0], [2.0], [3.0]]]}, {'$df': [[], ['a', 'b'], []]}, {'$df': [[], ['a'], []]},
+         {'$df': [IDX, ['a', 'b'], [[1.0, 2.0], [3.0, nan(16)], [5.0, 6.0]]]}, {'$df': [IDX[:2], ['a', 'b'], [[1.0, 2.0], [3.0, 4.0]]]}, {'$df': [IDX, ['a'], [[1.0], [2.0], [3.0]]]}, {'$df': [[], ['a', 'b'], []]}, {'$df': [[], ['a'], []]}, {'$df': [[], ['a', 'c'], []]}, {'$frame': [[1, 2], [], [[], []]]}, {'$frame': [[3, 4], [], [[], []]]}, {'$sr': [[], [], 'float64']},
          {'$frame': [[0, 1], ['a'], [[1], [1]]]}, {'$frame': [[0, 1], [0], [[1], [1]]]},
          [{'$ts': [IDX, [1.0, 2.0, 3.0]]}], {'a': {'$ts': [IDX, [1.0, 2.0, nan(17)]]}}, {'a': A('float64', [1.0, nan(18)])}, [A('int64', [1, 2]), 1], T(A('int64', [1, 2]), 1), {'a': A('int64', [1, 2]), 'b': [nan(19)]}]
     return u
@@ -138,6 +138,7 @@ def laws(ctx, terms, label):
     A = [codec.dec(t) for t in terms]
     B = [codec.dec(t) for t in terms]   # structural clones holding fresh NaN objects
     n = len(terms)
+    snaps = [core.snap(v) for v in A + B]
     E = np.zeros((n, n), dtype=bool)
     R = np.zeros((n, n), dtype=bool)
     for i in range(n):
@@ -151,6 +152,9 @@ def laws(ctx, terms, label):
                         return
                     r = False
                 M[i, j] = bool(r)
+    # eq is a pure observer: comparing must not edit what it compares
+    for v, s0, t in zip(A + B, snaps, terms + terms):
+        ctx.check('eq_operands_unchanged', core.snap_same(core.snap(v), s0), lambda: 'eq modified one of its arguments: %r is now %r' % (t, v))
     # symmetry
     ctx.monitors['eq_symmetric'] += n * n
     S = E != R
